@@ -72,6 +72,18 @@ move=> Hc; apply/matrixP => r i; rewrite !mxE -Hc.
 by apply: eq_bigr => j _; rewrite !mxE.
 Qed.
 
+(* every column of an adjoint gain is a function of its own dipole only (its source column and its primary-field column) *)
+Lemma gain_adjoint_col i : col i gain_adjoint = linsolve A *m dsm1 i.
+Proof. by apply/colP => r; rewrite !mxE. Qed.
+Lemma gain_meg_adjoint_col i : col i gain_meg_adjoint = linsolve B *m dsm1 i + col i P.
+Proof. by apply/colP => r; rewrite !mxE. Qed.
+Lemma gain_eegmeg_adjoint_eeg_col i :
+  col i gain_eegmeg_adjoint_eeg = submat_rows 0 me (linsolve eegmeg_rhs) *m dsm1 i.
+Proof. by apply/colP => r; rewrite !mxE. Qed.
+Lemma gain_eegmeg_adjoint_meg_col i :
+  col i gain_eegmeg_adjoint_meg = submat_rows me mm (linsolve eegmeg_rhs) *m dsm1 i + col i P.
+Proof. by apply/colP => r; rewrite !mxE. Qed.
+
 Theorem adjoint_eq_direct :
   H^T = H -> H \in unitmx -> (forall i, col i S = dsm1 i) ->
   gain_adjoint = gain_direct (invmx H).
